@@ -305,6 +305,24 @@ def items(tier):
     return out
 
 
+def long_items(tier):
+    """year-long (and longer) curves: periodic step patterns from each month start of 2018-2019, so that every
+    ISO-week / month / year boundary alignment of a full calendar year occurs (e.g. 29-31 December belonging to
+    ISO week 1 of the next year while the curve also holds the first days of January)"""
+    months = [(y, m) for y in (2018, 2019) for m in range(1, 13)]
+    if tier == 'quick':
+        months = [(2018, 1), (2018, 4), (2018, 9), (2019, 1), (2019, 7), (2019, 12)]
+    lengths = [262] if tier == 'quick' else [250, 262, 300, 523]
+    patterns = [['1.25', '0.8'], ['0.8', '1.25', '1'], ['2', '0.5', '1', '1']]
+    out = []
+    for (y, m) in months:
+        for n in lengths:
+            for pat in patterns:
+                steps = [pat[i % len(pat)] for i in range(n - 1)]
+                out.append({'start': datetime.date(y, m, 1).isoformat(), 'steps': steps})
+    return out
+
+
 def run(tier, res, is_known):
     import qstrader.statistics.json_statistics  # noqa: import the heavy plotting stack once, before forking
     import qstrader.statistics.tearsheet  # noqa
@@ -323,6 +341,12 @@ def run(tier, res, is_known):
         'Sortino with identical negative returns: exact deviation 0 => inf; a float residue giving |value| > 1e9 accepted',
     ]
     product(point, its, res, is_known, label='curves', sample_every=503, chunk=8)
+    if any(not is_known(v) for v in res.violations):
+        return
+    lits = long_items(tier)
+    res.bounds['long_curves'] = len(lits)
+    product(point, lits, res, is_known, label='year-long periodic curves', sample_every=10 ** 9, chunk=1)
+    res.rule += ('; plus %d year-long (250-523 observations) periodic curves from month starts of 2018-2019' % len(lits))
 
 
 def replay(case):
